@@ -47,18 +47,19 @@ CLAIMED = {
         "exactly log-linear rendering) so the harness can evaluate every equation itself. For models its own eigenvalue computation classifies "
         "determinate, first-order simulations with drawn initial conditions and dated unanticipated/anticipated/measurement shocks must make "
         "every equation hold (leads read from the continuation re-simulated under each information set), agree with their continuations, return "
-        "to the steady state 400 periods ahead, satisfy the measurement equations, obey levels = steady (+|*) deviations and be time consistent; "
+        "to the steady state 400 periods ahead, satisfy the measurement equations, obey levels = steady (+|*) deviations and be time consistent, "
+        "also after earlier simulations with other anticipation horizons on the same object, when repeated, and under force_split_frames=True; "
         "the unstable-root count must equal the number of leads iff the harness classifies the model determinate, and finite eigenvalue moduli must agree.",
         "Trusts numpy/scipy eig/ordqz for the classification; near-unit-root (|lambda| in [0.93,1.07]) and rank-deficient models are not judged; small well-conditioned models only.",
         "DESIGN.md section 3, C01",
     ),
     "C15": (
         "Hypothesis-generated structural models; autocovariances compared with an MA(infinity) sum of simulated impulse responses; metamorphic rescaling; NaN pattern for unit-root-loaded variables",
-        "For generated determinate models (stationary, or with one exact random-walk equation), drawn shock stds (zeros included), orders 0-4 and "
+        "For generated determinate models (stationary, or with one or two exact random-walk equations and spread/sum variables loading on both), drawn shock stds (zeros included, per variant), orders 0-4 and "
         "1-2 parameter variants, get_acov is compared with sum_h Phi_{h+j} Sigma Phi_h' built from 200-period impulse responses of simulate() "
-        "(no Lyapunov solver and no solution matrix in the reference), get_acorr with the scaled reference, rescale_stds(s) with s^2 times the "
+        "(no Lyapunov solver and no solution matrix in the reference), get_acorr with get_acov scaled by its own order-0 stds and with the scaled reference, rescale_stds(s) with s^2 times the "
         "reference for every variant, the order-0 matrix for symmetry/PSD, and the NaN pattern with the set of variables whose response to the "
-        "random-walk shock does not decay.",
+        "random-walk shocks does not decay.",
         "Relies on first-order simulate() (judged by C01); stable roots <= 0.85 by construction; variables with zero variance are skipped in acorr.",
         "DESIGN.md section 3, C15",
     ),
@@ -68,8 +69,10 @@ CLAIMED = {
         "and missing-data masks (cells, whole periods, never-observed variables), deviation and rescale_variance flags, the harness builds the "
         "joint Gaussian of all shocks over 200 pre-sample and the in-sample periods, maps it to every variable through impulse responses of "
         "simulate() and conditions by dense Cholesky: total and per-period negative log-likelihood (sum, zero for empty periods), var_scale, "
-        "predict/update/smooth means and stds of variables and shocks, prediction errors and prediction MSE matrices must agree.",
-        "Relies on first-order simulate() (C01); singular observation covariances and unit-root/diffuse models are not generated; tolerances 1e-7 (means, likelihood) and 1e-6 (variances).",
+        "predict/update/smooth means and stds of variables and shocks, prediction errors and prediction MSE matrices must agree; a second run under "
+        "a drawn output selection (return_=..., return_predict=False, likelihood_contributions=False, ...) must return the same values; unit-root "
+        "models under fixed_unknown are judged by the level/deviation relation, and a two-variant run against harness-built singleton models.",
+        "Relies on first-order simulate() (C01); singular observation covariances are excluded; for unit-root models only metamorphic relations (no exact oracle); tolerances 1e-7 (means, likelihood) and 1e-6 (variances).",
         "DESIGN.md section 3, C03",
     ),
     "C12": (
@@ -105,7 +108,8 @@ CLAIMED = {
         "On the same generated domain as C03 (additive and log-linear renderings, measurement shocks, missing-data masks), smooth_med must equal "
         "the data where observed and be NaN elsewhere, satisfy every measurement equation (smoothed measurement shocks, log-variables) and "
         "every lead-free transition equation under the harness's own evaluator, be reproduced by simulate() started from its first periods with "
-        "the smoothed shocks, and satisfy level-mode = steady (+|*) deviation-mode.",
+        "the smoothed shocks, and satisfy level-mode = steady (+|*) deviation-mode; also with anticipated shock values supplied as data, for "
+        "unit-root models under fixed_unknown, and under drawn output selections that still return the smoother.",
         "Equations are judged where all values they read are inside the returned span; singular observation covariances are excluded by construction; tolerance 1e-8 relative.",
         "DESIGN.md section 3, C08",
     ),
@@ -116,8 +120,9 @@ CLAIMED = {
         "pairs over several dates, or anticipated targets/instruments at arbitrary dates; swap_* and separate exogenize/endogenize APIs; "
         "first_order and stacked_time). The planned run must hit every exogenized cell, leave every non-endogenized shock cell at its input, "
         "and recover the instrument values and the whole path. Only set-ups whose impact matrix (built by the harness from simulated "
-        "responses) has condition number < 1e6 are judged.",
-        "Exactly identified plans only; with anticipated swaps later surprises are not generated (they change the information set); stacked_time non-convergence is not a violation.",
+        "responses) has condition number < 1e3 are judged; force_split_frames, stale instrument input values, surprises after the last target, "
+        "genuinely nonlinear models (stacked_time truth) and two-variant models with variant-specific targets are generated.",
+        "Exactly identified plans only; with anticipated swaps a surprise between the instrument and a target is not generated (it changes the information set); stacked_time non-convergence and collapsed pseudo-solutions are not violations.",
         "DESIGN.md section 3, C07",
     ),
     "C14": (
@@ -136,8 +141,9 @@ CLAIMED = {
         "functions that may be rejected, with drawn log-status, are embedded in 1-3 equation models; at a drawn non-steady data point every "
         "residual value and every derivative row of aldi's eval_to_arrays (chain rule for log-variables, shock + anticipated shock) must equal the "
         "harness's dual-number result, and at drawn steady levels every cell of systemize()'s A, B, D, F, G, J must sit in the row/column of its "
-        "equation/token. The steady-state (flat and non-flat) and stacked-time (terminal first_order/data) evaluators are captured by wrapping the "
-        "solver entry points in the harness process and their Jacobians compared with extrapolated central differences at drawn points.",
+        "equation/token and every occurrence with a non-zero derivative must have a column. The steady-state (flat and non-flat) and stacked-time (terminal first_order/data) evaluators are captured by wrapping the "
+        "solver entry points in the harness process and their Jacobians compared with extrapolated central differences at drawn points, asked for "
+        "before any function evaluation, after one at the same point and after one at another point.",
         "Kinks and out-of-domain points are excluded; rejection (an exception) is allowed for the listed functions; tolerance 1e-9 (analytic), 1e-5 (context functions), 1e-6 (finite differences).",
         "DESIGN.md section 3, C02",
     ),
@@ -195,10 +201,11 @@ CLAIMED = {
     "C20": (
         "model-based operation sequences over an original model and derived objects (copy, pickle, dill, save/load, portable) against per-variant lineage-replay shadows",
         "For generated Simultaneous models a pool of objects derived by copy/pickle/dill/save-load/portable receives interleaved assign, "
-        "assign-std, solve, steady and alter_num_variants operations; every variant of every object is shadowed by a fresh single-variant model on "
+        "assign-std, solve, steady, override_tolerance and alter_num_variants operations; every variant of every object is shadowed by a fresh single-variant model on "
         "which only its own lineage is replayed, and parameters, stds, steady state, T/P/K/Z/H/D, a fixed simulation and the Kalman likelihood "
         "are compared after every step (aliasing, stale state after pickling and cross-variant leakage show as mismatches); the portable form "
-        "must round-trip names, kinds, log status, equations, flags and values; smaller sequence checks cover Sequential and RedVAR.",
+        "must round-trip names, kinds, log status, equations, flags and values; smaller sequence checks cover Sequential (incl. reorder_equations / "
+        "sequentialize on either object) and RedVAR.",
         "Results, not object identity, are compared (Schur-basis dependent matrices excluded); get_variant views are only read; sequences <= 12 steps.",
         "DESIGN.md section 3, C20",
     ),
